@@ -1406,7 +1406,8 @@ namespace avel {
         auto is_reconstruction_smaller = _mm_cmplt_ps(reconstructed, decay(v));
         auto corrected_result = _mm_add_ps(reconstructed, _mm_and_ps(is_reconstruction_smaller, _mm_set1_ps(1.0f)));
 
-        return blend(mask4x32f{is_output_self}, v, vec4x32f{corrected_result});
+        // the result carries the sign of the argument, also when it is zero (the integer round trip yields +0.0)
+        return blend(mask4x32f{is_output_self}, v, copysign(vec4x32f{corrected_result}, v));
 
         #endif
 
@@ -1448,7 +1449,8 @@ namespace avel {
         auto is_reconstruction_smaller = _mm_cmplt_ps(decay(v), reconstructed);
         auto corrected_result = _mm_sub_ps(reconstructed, _mm_and_ps(is_reconstruction_smaller, _mm_set1_ps(1.0f)));
 
-        return blend(mask4x32f{is_output_self}, v, vec4x32f{corrected_result});
+        // the result carries the sign of the argument, also when it is zero (the integer round trip yields +0.0)
+        return blend(mask4x32f{is_output_self}, v, copysign(vec4x32f{corrected_result}, v));
 
         #endif
 
@@ -1477,7 +1479,8 @@ namespace avel {
         auto converted = _mm_cvttps_epi32(decay(v));
         auto reconstructed = _mm_cvtepi32_ps(converted);
 
-        return blend(mask4x32f{is_output_self}, v, vec4x32f{reconstructed});
+        // the result carries the sign of the argument, also when it is zero (the integer round trip yields +0.0)
+        return blend(mask4x32f{is_output_self}, v, copysign(vec4x32f{reconstructed}, v));
 
         #endif
 
@@ -1558,7 +1561,8 @@ namespace avel {
                 auto converted = _mm_cvtps_epi32(decay(v));
                 auto reconstructed = _mm_cvtepi32_ps(converted);
 
-                return blend(mask4x32f{is_output_self}, v, vec4x32f{reconstructed});
+                // the result carries the sign of the argument, also when it is zero (the integer round trip yields +0.0)
+                return blend(mask4x32f{is_output_self}, v, copysign(vec4x32f{reconstructed}, v));
             }
         default:
             return vec4x32f{0.0f};
